@@ -868,6 +868,69 @@ def r5(ctx):
                    path=cfg.describe_path(wit) if wit else None)
 
 
+# --------------------------------------------------------------------------- R6
+
+def r6(ctx):
+    repo = ctx.repo
+    ctx.rule("C04.R6", "a message is marked finalized before its packet ID is translated (or on every exit after it, "
+                       "also the exceptional ones): otherwise a fault after the rewrite leaves a translated but "
+                       "re-sendable message, and the retry translates the already translated ID again")
+    sites = []
+    for name in ("get_effective_id", "gen_injectable_id"):
+        for f, c in call_index(repo).get(name, []):
+            stmt = next((a for a in ancestors(c) if isinstance(a, ast.stmt)), None)
+            if isinstance(stmt, ast.Assign) and stmt.value is c and len(stmt.targets) == 1:
+                tg = stmt.targets[0]
+                msg = None
+                if isinstance(tg, ast.Attribute) and tg.attr == "packet_id":
+                    msg = ap(tg.value)
+                elif isinstance(tg, ast.Name):
+                    for st in stores(f.node, into_defs=True):
+                        if st.kind == "assign" and st.path.endswith(".packet_id") and isinstance(st.value, ast.Name) \
+                                and st.value.id == tg.id:
+                            msg = st.path.rsplit(".", 1)[0]
+                if msg is not None:
+                    sites.append((f, stmt, msg))
+    ctx.floor("C04.R6", "packet ID translations stored into a message", len(sites), 2)
+
+    def finalizes(n, msg):
+        if n.kind != "stmt" or n.ast is None:
+            return False
+        return any(st.path == f"{msg}.finalized" and st.kind == "assign" and isinstance(st.value, ast.Constant)
+                   and st.value.value is True for st in stores(n.ast, into_defs=False))
+
+    def dominated(f, node_ast, msg, depth=0):
+        """finalized = True on every path from f's entry to node_ast, or - f being a helper - at all its call sites"""
+        cfg = CFG(f.node)
+        tgts = cfg.stmt_nodes_containing(node_ast) or cfg.nodes_for(node_ast)
+        if not tgts:
+            return False
+        if all(cfg.witness_path(cfg.entry, lambda n, t=t: n is t, avoid=lambda n: finalizes(n, msg), exc=False) is None
+               for t in tgts):
+            return True
+        if depth >= 2 or f.cls is None:
+            return False
+        params = [a.arg for a in f.node.args.args]
+        callers = [(g, c) for g, c in call_index(repo).get(f.name, []) if g.cls is not None and g != f and
+                   any(k == f.cls for k in repo.mro(g.cls)) and isinstance(c.func, ast.Attribute) and ap(c.func.value) in ("self", "cls")]
+        if not callers or msg not in params:
+            return False
+        idx = params.index(msg) - 1
+        for g, c in callers:
+            if idx >= len(c.args) or ap(c.args[idx]) is None or not dominated(g, c, ap(c.args[idx]), depth + 1):
+                return False
+        return True
+    for f, stmt, msg in sites:
+        ok = dominated(f, stmt, msg)
+        if not ok:
+            cfg = CFG(f.node)
+            ok = all(cfg.path_exists([s0], lambda n: n in (cfg.exit, cfg.raise_exit), avoid=lambda n: finalizes(n, msg), exc=True) is None
+                     for s0 in cfg.nodes_for(stmt))
+        ctx.ob("C04.R6", f"{f.qual}: `{norm(stmt)}` happens on a message already marked finalized", ok, ctx.w(f, stmt),
+               f"`{msg}.finalized = True` neither precedes this rewrite on every path nor follows it on every exit (including "
+               f"exceptional ones): after a fault in between, the same message can be prepared again and its ID shifted twice")
+
+
 def _is_len_deq(e):
     return isinstance(e, ast.Call) and ap(e.func) == "len" and len(e.args) == 1 and ap(e.args[0]) == DEQ
 
@@ -878,4 +941,5 @@ def run(ctx):
     r3_symmetry(ctx)
     r4(ctx)
     r5(ctx)
+    r6(ctx)
     ctx.assume("the bijection law over all histories is arithmetic over runtime state and is not decided statically")
